@@ -120,6 +120,9 @@ func c19Gen(tier string, seed int64) []fw.Case {
 	}
 	bad := []string{
 		``, ` `, `{`, `[1,2`, `{"a":1`, `{"a":}`, `nul`, `tru`, `"unterminated`, `{"a":1}{"b":2}`, `1 2`, `"x"]`, `[1,2,]`, `{"a":1,}`, `'single'`, `{a:1}`, `01`, `1.`, `.5`, `+1`, `NaN`, `Infinity`,
+		// documents that another parser might let through: encoding/json (and RFC 8259's grammar) does not
+		"\xef\xbb\xbf{\"a\":1}", "\xef\xbb\xbf[1,2]", "\xef\xbb\xbf\"s\"", "\xff\xfe[\x001\x00]\x00", "\x00{\"a\":1}", "{\"a\":1}\x00", "\v[1]", "[1]\f", "\u00a0[1]", "\xc2\xa0{\"a\":1}",
+		`/* c */ 1`, "// c\n1", `[1] // c`, `0x10`, `1_000`, `True`, `NULL`, `undefined`, `{"a":1;"b":2}`, `{"a"=1}`, `["a",]`, `[,1]`, `{,}`, `-`, `--1`, `1e`, `1e+`, `"\x"`, `"\u00g0"`, "\"tab\tinside\"", `{"a":1}}`, `]`,
 		"\"bad \x01 control\"", `"bad escape \q"`, `"\ud800"x`, `[1 2]`, `{"a" 1}`, `{"a":1 "b":2}`, `[]]`, `{}}`, "\xff\xfe", `{"a":"\u12"}`,
 	}
 	for _, role := range bothRoles {
